@@ -106,7 +106,7 @@ func (r *faultReader) Read(p []byte) (int, error) {
 	return n, nil
 }
 
-var sizes = []int{1, 2, 7, 64, 100, 1000, 4095, 4096, 4097, 8191, 8192, 8193, 9000, 16384, 20000, 70000, 131072, 300000, 600000}
+var sizes = []int{1, 2, 7, 12, 13, 14, 15, 16, 17, 64, 100, 1000, 4095, 4096, 4097, 8191, 8192, 8193, 9000, 16384, 20000, 70000, 131072, 300000, 600000}
 
 var kindNames = []string{"zeros", "text", "incompressible", "mixed", "sparse"}
 
